@@ -148,7 +148,7 @@ TEXTS.update({
 })
 TEXTS.update({
     'C02': {
-        'level': "Decides necessary structural conditions of exact decoding: entry-point funnel, literal length/advance/type triples, the escape table against RFC 8259 read off the paths of the decoding loop for all 256 values of the byte after a backslash (switch, if-chain or constant-table search alike), the UTF-16 escape decoder over all code values (TAB6: which codes stand alone / need a partner / are refused, the code point of all 1024 x 1024 surrogate pairs, the UTF-8 bytes of every code), first-byte sets of the dispatch computed by dataflow over the guards, tail-append order of container members, key taken from the parsed string, int-view saturation. Exact decoding as a value (rounding, UTF-8 arithmetic) is not decided.",
+        'level': "Decides necessary structural conditions of exact decoding: entry-point funnel, literal length/advance/type triples, the escape table against RFC 8259 read off the paths of the decoding loop for all 256 values of the byte after a backslash (switch, if-chain or constant-table search alike), the UTF-16 escape decoder over all code values (TAB6: which codes stand alone / need a partner / are refused, the code point of all 1024 x 1024 surrogate pairs, the UTF-8 bytes of every code), first-byte sets of the dispatch computed by dataflow over the guards, tail-append order of container members, key taken from the parsed string, int-view saturation, the hex digits of \\u escapes and the bytes skipped as whitespace as byte sets with the signedness of the read (TAB21, TAB22), and where a string literal ends (TAB23: the scan for the closing quote steps over two bytes on a backslash and one otherwise for all 256 byte values; a quote found by searching is judged by the parity of the backslash run in front of it). Exact decoding as a value (rounding, UTF-8 arithmetic) is not decided.",
         'note': COMMON_NOTE + " RFC tables (RFC 8259 escapes, RFC 2781/3629 constants) are the oracle for the extracted tables.",
         'technique': 'static analysis: table extraction from the AST, abstract interpretation of the UTF-16 decoder over value sets of its two codes, byte-set dataflow over guard conditions, idiom matching for list construction',
         'ref': 'DESIGN.md 4 C02; 3 TAB2 TAB4 TAB5a TAB6 TAB7 LST1',
@@ -156,7 +156,7 @@ TEXTS.update({
 })
 TEXTS.update({
     'C04': {
-        'level': "Decides only the structural share of the round-trip property: printer escapes are a subset of what the parser decodes to the same bytes, count and emit passes agree for every byte value, every write is covered by a capacity request, and the offset bookkeeping makes the two growth strategies of ensure() preserve the same bytes. The numeric round trip (including the DBL_MAX defect named in the property) is explicitly not decided.",
+        'level': "Decides only the structural share of the round-trip property: printer escapes are a subset of what the parser decodes to the same bytes, count and emit passes agree for every byte value, every write is covered by a capacity request, and the offset bookkeeping makes the two growth strategies of ensure() preserve the same bytes; on the reading side the end of a string literal is where the decoder has it (TAB23), so what the printer escaped is read back whole. The numeric round trip (including the DBL_MAX defect named in the property) is explicitly not decided.",
         'note': COMMON_NOTE + " Not decided: numbers, fixed point as a value.",
         'technique': 'static analysis: two-sided table extraction and per-byte-value agreement; path enumeration with linear symbolic state for write/offset accounting',
         'ref': 'DESIGN.md 4 C04; 3 TAB5b TAB5c OUT1 OUT3',
@@ -174,4 +174,15 @@ TEXTS.update({
         'ref': 'DESIGN.md 4 C09; 3 OUT1 OUT2 OUT4 BND4',
     },
 })
+# clauses added by later seed waves: inserted in front of the closing "Does not decide .." sentence
+ADDENDA = {
+    'C15': "A name byte is compared with a token byte directly only where the token byte is neither '~' nor '/' (ESC3).",
+    'C16': "Numbers of a test operation compare equal only behind compare_double (NUMU).",
+    'C17': "A text that keeps its own length grows by the encoded length of the name appended to it (ESC2); two numbers count as equal only behind compare_double (NUMU).",
+    'C18': "The generator takes two numbers for equal only behind compare_double (NUMU).",
+}
+for _k, _t in ADDENDA.items():
+    _l = TEXTS[_k]['level']
+    _i = max(_l.rfind(' Does not decide'), _l.rfind(' The merged value itself'))
+    TEXTS[_k]['level'] = (_l[:_i] + ' ' + _t + _l[_i:]) if _i > 0 else (_l + ' ' + _t)
 NOT_APPLICABLE = {}
